@@ -1,18 +1,18 @@
 SPECIFICATION MCSpec
-CONSTANTS NA = 1
-          NS = 1
+CONSTANTS NA = 2
+          NS = 2
           Ripemd = 0
-          MaxVal = 1
-          MaxBal = 1
-          MaxNonce = 1
-          MaxCode = 1
-          MaxSnap = 2
-          MaxTx = 1
+          MaxVal = 2
+          MaxBal = 4
+          MaxNonce = 3
+          MaxCode = 2
+          MaxSnap = 3
+          MaxTx = 4
           Ops = {"BeginTx", "AddBalance", "SubBalance", "SetBalance", "SetNonce", "SetCode", "SetState", "SelfDestruct", "CreateAccount", "EvmCreate", "ReadAccount", "ReadSlot", "Snapshot", "Revert", "Finalise"}
-          BaseKinds = {0, 2, 3}
-          KeepHist = FALSE
-          HistLen = 0
-          TxEvery = 1
+          BaseKinds = {0, 1, 2, 3, 4}
+          KeepHist = TRUE
+          HistLen = 32
+          TxEvery = 8
 INVARIANTS MechanismIsNetDiff InvBAL InvFunctional InvFeasible InvFrames
-VIEW View
+CONSTRAINT Emit
 CHECK_DEADLOCK FALSE
